@@ -44,11 +44,9 @@ THEOREMS = [
     "PV.C18.dev_group_nonfinite",
     "PV.C18.dev_int_above_f64max",
     "PV.C18.dev_float_group_exponent",
-    "PV.C18.dev_float_near_integer",
-    "PV.C18.dev_float_tie",
+        "PV.C18.dev_float_tie",
     "PV.C18.dev_float_alt_no_point",
-    "PV.C18.dev_float_precision_zero",
-    "PV.C18.dev_float_no_dot_zero",
+        "PV.C18.dev_float_no_dot_zero",
     "PV.C18.dev_float_percent_overflow",
     "PV.C18.dev_precision_over_u16",
 ]
@@ -365,16 +363,12 @@ def _shapes(p, eff, kind, value, out):
         return
     if kind == "f" and p.type is None and math.isfinite(value):
         v = value
-        if p.group and "e" in (repr(abs(v)) if p.prec is None else format(abs(v), ".%dg" % min(max(p.prec, 1), 800))):
+        if p.group and "e" in (repr(abs(v)) if p.prec is None else format(abs(v), ".%d" % min(p.prec, 800))):
             add("float-group-in-exponent-text")
         if p.prec is None and _repr_tie_even(v):
             add("float-repr-tie-rounds-up")
-        if p.prec is None and v != round(v) and abs(v - round(v)) < 2.0 ** -52 and 1e-4 <= abs(v) < 1e16:
-            add("float-repr-near-integer")
         if p.prec is None and p.alt and "e" in repr(v) and "." not in repr(v):
             add("float-default-type-alt-no-point")
-        if p.prec == 0:
-            add("float-default-type-precision-zero")
         if p.prec is not None and p.prec >= 1 and not p.alt:
             t = format(abs(v), ".%dg" % min(p.prec, 800))
             if "." not in t and "e" not in t:
@@ -402,15 +396,13 @@ _EXPLAINS = {
     "bool-default-type-ignores-spec": lambda got, exp: got in ("ok:" + hexs("True"), "ok:" + hexs("False")),
     "int-c-precision-accepted": lambda got, exp: exp == "err" and got.startswith("ok:"),
     "int-c-nonascii-width": lambda got, exp: got.startswith("ok:") and exp != "err",
-    "int-c-surrogate-panic": lambda got, exp: got == "panic",
+    "int-c-surrogate-panic": lambda got, exp: got in ("panic", "err"),   # a Rust String cannot hold a lone surrogate
     "group-width-zero-pads": lambda got, exp: got.startswith("ok:") and exp != "err",
     "group-nonfinite-zero-pad": lambda got, exp: got.startswith("ok:") and exp != "err",
     "int-float-above-max-rejected": lambda got, exp: got == "err" and exp != "err",
     "float-group-in-exponent-text": lambda got, exp: got.startswith("ok:") and exp != "err",
-    "float-repr-near-integer": lambda got, exp: got.startswith("ok:") and exp != "err",
     "float-default-type-alt-no-point": lambda got, exp: got.startswith("ok:") and exp != "err",
     "float-repr-tie-rounds-up": lambda got, exp: got.startswith("ok:") and exp != "err",
-    "float-default-type-precision-zero": lambda got, exp: got.startswith("ok:") and exp != "err",
     "float-default-type-precision-no-dot-zero": lambda got, exp: got.startswith("ok:") and exp != "err",
     "float-percent-overflow-alt": lambda got, exp: got.startswith("ok:") and exp != "err",
     "precision-over-65535-panic": lambda got, exp: got == "panic",
@@ -509,10 +501,8 @@ PROBES = [
     ("group-nonfinite-zero-pad", "08,", float("inf")),
     ("int-float-above-max-rejected", "e", F64_MAX_INT + 1),
     ("float-group-in-exponent-text", ",", 1e100),
-    ("float-repr-near-integer", "", 0.9999999999999999),
     ("float-default-type-alt-no-point", "#", 1e100),
     ("float-repr-tie-rounds-up", "", 600377706905611.2),
-    ("float-default-type-precision-zero", ".0", 0.5),
     ("float-default-type-precision-no-dot-zero", ".5", 1.0),
     ("float-percent-overflow-alt", "#.0%", 1.7976931348623157e308),
     ("precision-over-65535-panic", ".65536f", 1.0),
@@ -521,6 +511,8 @@ PROBES = [
 ]
 
 REGRESSION = [
+    # fixed in /repo by 5be0365 (is_integer exact) and 668a737 (format_general precision 0 -> 1); kept as regressions
+    ("", 0.9999999999999999), (".0", 0.5), (".0", 0.05), (".0", 5.0), ("#.0", 0.5), (",.0", 0.5), ("", 1.0000000000000002),
     ("012,", 1234567), ("0=12,", 1234567), ("08,", -1234), ("07,", 1234), ("06,", 1234), ("05,", 1234),
     ("#010_x", 123), ("#09_b", 255), ("04,", 123), ("+#012_X", 48879), ("_b", 255), ("_o", 4095),
     ("*^+#012,.3f", 123456.789), ("'>5", -12), ("x<05", 7), ("é^7", "ab"), ("日>4", "é"),
